@@ -73,6 +73,7 @@ def run(ctx, progs):
     ctx.explanation = EXPLANATION
     ctx.rule("WHO1", "closed tables: destructor sites, bit-copy/move-out sites, forget/ManuallyDrop sites, unsafe-containing functions")
     ctx.rule("OCC", "M..B- / B+..A pairing, no user code in between, balanced returns, writes only in size-ahead")
+    ctx.rule("VIEWCMP1", "the pieces handed to the destructors: contiguous only when lower < upper strictly, split only when upper <= lower")
     ctx.rule("OWNER1", "buffer Drop reaches drop_range; IntoIter has only the buffer; Drain::drop DRN1; From passes destroy + disarm")
     for cfg, prog in progs.items():
         c05.dtor_table(ctx, prog, cfg)
@@ -175,6 +176,10 @@ def owner1(ctx, prog, cfg):
     from .. import drainrules
 
     drainrules.drnview1(ctx, prog, cfg, "OWNER1")
+    # the slot ranges handed to the destructors: the un-yielded views of a drain and drop_range's two pieces
+    from .. import shapes
+
+    shapes.viewcmp1(ctx, prog, cfg, groups=[["Drain::as_slices", "Drain::as_mut_slices"], ["CircularBuffer::drop_range"]])
     owner1_from(ctx, prog, cfg, "OWNER1")
 
 
